@@ -537,6 +537,10 @@ def ref_compile(doc, uri, ids):
 
 
 def format_tokens(tokens):
+    return '\n'.join(format_token_list(tokens))
+
+
+def format_token_list(tokens):
     out = []
     for t in tokens:
         if t.eof:
@@ -544,7 +548,7 @@ def format_tokens(tokens):
             continue
         kw = '(%s)%s' % (t.ktype or '', t.keyword) if t.keyword else ''
         out.append('(%d:%d)%s:%s/%s/%s' % (t.line_no, t.column, t.kind, kw, t.text or '', ','.join('%d:%s' % i for i in t.items)))
-    return '\n'.join(out)
+    return out
 
 
 class Result:
